@@ -34,7 +34,7 @@ class Contract:
         self.auto_inv = kw.pop("auto_inv", True)
         self.nonneg = kw.pop("nonneg", [])
         self.unchecked = kw.pop("unchecked", [])    # arrays whose index obligations are NOT generated (listed as unverified in the evidence)
-        self.store_asserts = kw.pop("store_asserts", {})   # array -> [spec exprs over the current state, `value` and `index`]: must hold at every store to that array
+        self.store_asserts = kw.pop("store_asserts", {})   # array or "array@Lk" -> [spec exprs over the current state, `value` and `at` (alias `index`)]: must hold at every store to that array (inside loop Lk)
         self.sums = kw.pop("sums", {})              # name -> (bound var, n expr, term expr): prefix sums with a proved monotonicity lemma
         if kw:
             raise TypeError("unknown contract fields %s" % list(kw))
@@ -277,12 +277,17 @@ class Unit:
                                 patterns=[z3.MultiPattern(S(a), S(b))]))
 
     def _checked_store(self, arr, idx, v, st, src_ty=None):
-        for src in self.c.store_asserts.get(arr, []):
+        # keys: "arr" (every store to arr) or "arr@L1" (stores to arr inside the loop labelled L1 only)
+        srcs = list(self.c.store_asserts.get(arr, [])) + list(self.c.store_asserts.get("%s@%s" % (arr, self.ev.loc_label), []))
+        for src in srcs:
             try:
                 val = sym.to_int(v) if v.k in ("int", "bool") else None
                 if val is None:
                     continue
-                claim = self.se.boolean(src, st, init=self.init, bound={"value": val, "index": idx})
+                bound = {"value": val, "at": idx}
+                if "index" not in st.arrs:        # (a kernel parameter may itself be called `index`)
+                    bound["index"] = idx
+                claim = self.se.boolean(src, st, init=self.init, bound=bound)
                 self.ev.oblige("F.store", claim, st, "at every store to %s: %s" % (arr, src), {"src": src})
             except spec.SpecError as ex:
                 self.errors.append("contract error in store_asserts: %s" % ex)
